@@ -202,6 +202,20 @@ pub enum SEnum {
     I { only: u16 },
     J { zeta: u8, alpha: bool },
 }
+/// raw identifiers: serde names the items `type`, `match`, `loop` (without the `r#` marker)
+#[derive(Serialize, Schema, Clone, Debug)]
+pub struct SRaw {
+    pub r#type: u8,
+    pub plain: bool,
+    pub r#match: i16,
+}
+#[derive(Serialize, Schema, Clone, Debug)]
+#[allow(non_camel_case_types)]
+pub enum ERaw {
+    r#loop,
+    r#fn(u8),
+    Plain { r#ref: u16 },
+}
 #[derive(Serialize, Schema, Clone, Debug)]
 pub enum SOuter {
     Leaf(SEnum),
@@ -376,6 +390,8 @@ fn run_corpus(r: &mut Runner) {
     r.list::<SNamed0>("SNamed0", vec![SNamed0 {}]);
     let n = 7u32;
     r.list::<SLife>("SLife<'a>", vec![SLife { s: "", b: &[], n: &n }, SLife { s: "é", b: &[0, 255], n: &n }]);
+    r.list::<SRaw>("SRaw(raw identifiers)", vec![SRaw { r#type: 1, plain: true, r#match: -300 }]);
+    r.list::<ERaw>("ERaw(raw identifiers)", vec![ERaw::r#loop, ERaw::r#fn(7), ERaw::Plain { r#ref: 300 }]);
     r.list::<SEnum>("SEnum", senum_vals());
     r.list::<SBig>("SBig(130 variants)", SBig::all());
     r.list::<(SBig, u8)>("(SBig, u8)", SBig::all().into_iter().map(|e| (e, 5u8)).collect());
